@@ -1,7 +1,7 @@
 from common import COMMON_TB
 
 CONFIG = {
-    "lean_modules": ["SA.Props.C16"],
+    "lean_modules": ["SA.Props.C16", "SA.Props.C16Direct"],
     "level_text": "Lean theorems over a state machine of the client's connection policy (HandleConnection / Upstreams.Connect as "
                   "threads that take the mutex, open over the upstream list, OpenStream on the session they saw, discard a lost "
                   "session and retry once; environment: carrier cut, server restart, Shutdown): a usable forward address serves "
@@ -35,7 +35,8 @@ CONFIG = {
                  "policy function) + regenerated facts + scripted correspondence + e2e",
     "components": [{"name": "policy", "timeout": {"quick": 600, "thorough": 2400}},
                    {"name": "polnet", "timeout": {"quick": 300, "thorough": 900}},
-                   {"name": "poltls", "timeout": {"quick": 600, "thorough": 1500}}],
+                   {"name": "poltls", "timeout": {"quick": 600, "thorough": 1500}},
+                   {"name": "poldirect", "timeout": {"quick": 300, "thorough": 900}}],
     "rule": "policy: every upstream list of length 1..2 (thorough: 1..4, 780 lists) over {refused, silent, garbage, plain, secure} "
             "x security requirement x {reuse+cut+reconnect, concurrent+cut, close}; failing prefixes of every kind before the first "
             "usable upstream at every position of lists of 3..4; every forward-address form; 30 enumerated histories over "
